@@ -1,7 +1,7 @@
-"""C19 - see properties.jsonl; DESIGN.md section 5."""
+"""C17 - see properties.jsonl; DESIGN.md section 5."""
 from ._generic import run_property
 
-EXPLANATION = 'Bounded stand-in: k-th-call fault injection through contract-carrying open_with/mkdirs and the prefix-closed I/O trace invariant (no existing path opened for writing before the summary files).'
+EXPLANATION = 'Bounded stand-in: metadata-only answers (columns, dtypes, categories, cats, index, counts) vs the frame actually read, over read-option tuples and own/foreign/partitioned files.'
 
 
 def p_parts():
@@ -9,7 +9,7 @@ def p_parts():
 
 
 def run(ctx):
-    return run_property(ctx, 'fault_enumeration', EXPLANATION, p_parts=p_parts(), b_modules=['c19_fault_injection'],
+    return run_property(ctx, 'exploration', EXPLANATION, p_parts=p_parts(), b_modules=['c17_meta_vs_read'],
                         assumptions=["pandas / numpy / cramjam behaviour inside every opaque value",
                                      "the oracle (plain pandas / the spec library under /verif/spec) is a faithful reading of the property"],
                         trusted=["bounded layer: enumerated inputs only; nothing outside the stated bound is covered"])
